@@ -75,6 +75,16 @@ type CfgClass struct {
 	InstanceMethods []CfgMethod `json:"instance_methods"`
 	ClassMethods    []CfgMethod `json:"class_methods"`
 	Constants       []CfgConst  `json:"constants,omitempty"`
+	// instance_properties (attribute-like members with an access mode) and instance_variables
+	InstanceProperties []CfgProp `json:"instance_properties,omitempty"`
+	InstanceVariables  []CfgProp `json:"instance_variables,omitempty"`
+}
+
+// CfgProp is an instance property (`access`: "reader" or "accessor") or an instance variable (no access).
+type CfgProp struct {
+	Name   string   `json:"name"`
+	Type   []string `json:"type"`
+	Access string   `json:"access,omitempty"`
 }
 
 func (c CfgClass) JSON() string {
